@@ -92,6 +92,9 @@ type gen struct {
 	// flushy sequences force pebble memtable flushes (through Impl(), not part of Juno's
 	// interface) and in exchange never use the empty key: pebble v2.1.6 panics on a
 	// background goroutine when it flushes a memtable whose only user key is empty.
+	// Not done in the race binary: the race build tag switches pebble v2 into its internal
+	// "invariants" test mode, in which reads after a forced flush were seen to resurrect
+	// range-deleted keys (gone when that mode is compiled out, race detector still on).
 	flushy bool
 }
 
@@ -1126,7 +1129,13 @@ func classify(o *op, backend, want, got string, variantRes map[int]string, snapC
 		// whose callback returned an error did not release
 		return "store-close-fails-after-snapshot-get-with-failing-callback:" + backend
 	}
-	for _, f := range variantOrder {
+	order := variantOrder
+	if backend != "memory" {
+		// db.BufferBatch is the only deviation model that is backend independent; when
+		// several single deviations reproduce the observation, it names a pebble divergence
+		order = append([]int{fBufNilPut}, variantOrder...)
+	}
+	for _, f := range order {
 		if vr, ok := variantRes[f]; ok && match(vr, got) {
 			return variantName(f) + ":" + backend
 		}
@@ -1178,7 +1187,7 @@ func classify(o *op, backend, want, got string, variantRes map[int]string, snapC
 // model and to every backend, comparing every result.
 func runSequence(r *lib.Run, col *collector, idx int) {
 	rng := lib.Rng("C15/seq", uint64(idx))
-	g := &gen{rng: rng, steer: map[string]bool{}, flushy: idx%3 == 0}
+	g := &gen{rng: rng, steer: map[string]bool{}, flushy: idx%3 == 0 && !raceBuild}
 	if idx%4 != 0 { // three quarters of the sequences steer around shapes listed as open findings
 		for _, tag := range []string{"snapshot-has-missing-key", "snapshot-get-failing-callback", "iter-no-upper-bound", "iter-unbounded-prefix",
 			"batch-deleterange-then-store-write", "bufferbatch-put-empty-value"} {
